@@ -246,7 +246,9 @@ func modRel(rel string) string {
 	return modPath + "/" + rel
 }
 
-// instrs iterates over all instructions of fn.
+// instrs iterates over all instructions of fn, including those of function literals that fn
+// invokes immediately (`func() {...}()`): they are inline code, and the shape the normalisation
+// pre-pass gives an extracted helper that cannot be inlined as plain statements.
 func instrs(fn *ssa.Function, f func(ins ssa.Instruction)) {
 	if fn == nil {
 		return
@@ -254,6 +256,11 @@ func instrs(fn *ssa.Function, f func(ins ssa.Instruction)) {
 	for _, b := range fn.Blocks {
 		for _, ins := range b.Instrs {
 			f(ins)
+			if call, ok := ins.(*ssa.Call); ok {
+				if callee := call.Call.StaticCallee(); callee != nil && callee.Parent() == fn && callee != fn {
+					instrs(callee, f)
+				}
+			}
 		}
 	}
 }
